@@ -5,3 +5,6 @@ import DsdVerif.Props.C14Sigma
 import DsdVerif.Props.C14SigmaCplx
 import DsdVerif.Props.C14Text
 import DsdVerif.Props.C14SigmaRxn
+import DsdVerif.Props.C14SigmaX
+import DsdVerif.Props.C14TextRxn
+import DsdVerif.Props.C14EndToEnd
